@@ -6,7 +6,11 @@ on generated operation histories; implementation-level oracle = a direct Python 
 a full frame answers -1 and keeps what it holds).
 Re-entrant part: callbacks 15 (SPAWN) / 16 (RSPAWN) of the harness call the real tdma_schedule() / tdma_sched_reset() from inside
 the real tdma_sched_execute(); the model side is tdma_sched_execute_sp (wire function w_c08_runsp), the old wire function
-w_c08_run is still compared on every history without such callbacks (harness mode v1)."""
+w_c08_run is still compared on every history without such callbacks (harness mode v1).
+GSM-time one-shot events: the real layer1/sched_gsmtime.c is #included too (harness mode gsm: sched_gsmtime / sched_gsmtime_execute /
+sched_gsmtime_reset interleaved with the TDMA operations, both llists dumped at the end); model Model/SchedGsmtime.v (w_c08_gsm);
+oracle: an event requested for frame F is handed over exactly once, by the execute of frame F - 2, its items run in frame F - 1 + k,
+-EBUSY with 16 pending, pool conserved, active list in ascending frame order."""
 import os
 import subprocess
 
@@ -18,6 +22,13 @@ CAP = 8
 NCBK = 15
 CB_SPAWN = 15
 CB_RSPAWN = 16
+NEVENTS = 16                # sched_gsmtime event pool
+EBUSY = 16
+GSM_MAX_FN = 2715648        # 26 * 51 * 2048
+# sched_gsmtime_execute() never hands over an event requested for frame 0 or 1 of the hyperframe (fn + 2 unreduced): proved as
+# c08_gsm_frame01_refuted and observed on the real code in every run (counted as finding-candidate).  Switch on once the finding is
+# registered in known_findings.json under the key c08-gsmtime-frame01-never-fires.
+REPORT_WRAP_FINDING = False
 SRC = "src/target/firmware/layer1/tdma_sched.c"
 SRC_G = "src/target/firmware/layer1/sched_gsmtime.c"
 
@@ -71,6 +82,14 @@ def flat(case):
             out.append(4)
         elif o[0] == "r":
             out.append(5)
+        elif o[0] == "g":        # sched_gsmtime(items, fn, p3)
+            out += [6, o[1], o[2], len(o[3])]
+            for it in o[3]:
+                out += list(it)
+        elif o[0] == "ge":       # sched_gsmtime_execute(fn)
+            out += [7, o[1]]
+        elif o[0] == "gr":       # sched_gsmtime_reset()
+            out.append(8)
         else:  # raw ints (malformed stream)
             out += list(o[1])
     return out
@@ -240,6 +259,91 @@ def gen_case(rng, k):
     return (cur, ops)
 
 
+def gen_gsm_case(rng, k):
+    """the L1S frame interrupt with one-shot events: tdma execute, requests (from callbacks / L23), sched_gsmtime_execute(fn), advance"""
+    r = rng
+    modes = ["frames", "frames", "desc", "asc", "equal", "between", "pool", "wrap", "wrap", "direct", "u32", "loose"]
+    mode = modes[k % len(modes)]
+    g = G(r, "gsm")
+    g.prios = [-1, 0, 1]
+    cur = r.below(DEPTH) if k % 3 else (k // 3) % DEPTH
+    if mode == "wrap":
+        fn = GSM_MAX_FN - r.choice([1, 2, 3, 5, 12, 30])
+    elif mode == "u32":
+        fn = (1 << 32) - r.choice([1, 2, 3, 10, 40])
+    else:
+        fn = r.choice([0, 0, 1, 100, 2715000, r.below(GSM_MAX_FN - 400)])
+    ops = []
+    serial = [0]
+
+    def gset():
+        nfr = r.choice([1, 1, 1, 2, 2, 3, 4])
+        items = []
+        for f in range(nfr):
+            for _ in range(r.choice([1, 1, 1, 2, 3, 0])):
+                items.append(g.item(False))
+            if f < nfr - 1 or r.chance(1, 2):
+                items.append((0, 0, 0, 0, 0))
+        items.append((1, 0, 0, 0, 0))
+        if r.chance(1, 10):
+            items.append(g.item(False))          # behind the terminator: never read
+        return items
+
+    def req(F):
+        serial[0] += 1
+        if mode != "u32":
+            F %= GSM_MAX_FN                       # prim_rach.c / prim_freq.c reduce the frame number themselves
+        return ("g", F, 1000 + serial[0], gset())
+
+    nframes = r.choice([6, 20, 45, 80])
+    for i in range(nframes):
+        ops.append(("x",))
+        nreq = r.choice([0, 0, 0, 1, 1, 2])
+        if mode in ("desc", "asc", "equal", "between") and i % 9 == 0:
+            base = fn + r.choice([2, 3, 5, 9])
+            ds = {"desc": [12, 8, 4, 0], "asc": [0, 3, 3, 7, 11], "equal": [4, 4, 4, 0, 4], "between": [0, 10, 5, 7, 2, 5]}[mode]
+            for d in ds[:r.choice([2, 3, len(ds)])]:
+                ops.append(req(base + d))
+            nreq = 0
+        if mode == "pool" and i % 14 == 2:
+            for j in range(r.choice([15, 16, 17, 19])):
+                ops.append(req(fn + 2 + r.choice([0, 1, 2, 3, 6, 10, 11])))
+            nreq = 0
+        for _ in range(nreq):
+            d = r.choice([2, 2, 3, 4, 6, 10, 23, 30]) if mode != "loose" else r.choice([0, 1, 2, 3, 5, 200])
+            ops.append(req(fn + d))
+        if mode == "direct" or r.chance(1, 6):
+            for _ in range(r.choice([1, 1, 2, 6])):
+                ops.append(g.sset() if r.chance(1, 3) else g.sched(off=r.choice([0, 1, 1, 2, 3, 24])))
+        if r.chance(1, 60):
+            ops.append(("gr",))
+        if r.chance(1, 90):
+            ops.append(("r",))
+        if mode == "loose" and r.chance(1, 8):
+            continue                              # a frame interrupt without sched_gsmtime_execute (never in the firmware)
+        ops.append(("ge", fn))
+        ops.append(("a",))
+        fn = (fn + 1) % ((1 << 32) if mode == "u32" else GSM_MAX_FN)
+    return (cur, ops)
+
+
+def gsm_grid_cases():
+    """every ring position: events requested 2..27 frames ahead in descending, ascending and equal frame order; every frame processed"""
+    out = []
+    for cur in range(DEPTH):
+        for shape in range(3):
+            fn = 500 + 40 * cur
+            ds = [[27, 20, 9, 2], [2, 9, 20, 27], [6, 6, 2, 6]][shape]
+            ops = []
+            for j, d in enumerate(ds):
+                ops.append(("g", fn + d, 3000 + 10 * cur + j,
+                            [(2 + j, j, d, 0, 1 - j), (0, 0, 0, 0, 0), (6 + j, j, d, 0, 0), (7, j, d, 0, -1), (0, 0, 0, 0, 0), (1, 0, 0, 0, 0)]))
+            for i in range(34):
+                ops += [("x",), ("ge", fn + i), ("a",)]
+            out.append((cur, ops))
+    return out
+
+
 def grid_cases():
     """every ring position x every offset: one item, every frame executed; it must run at exactly the N-th advance"""
     out = []
@@ -350,6 +454,42 @@ def oracle(ctx, case, impl):
         pos += n
         return v
 
+    gpend = []          # requested one-shot events not handed over yet: (frame, request serial, p3, item array)
+    gser = [0]
+
+    def apply_set(off, p3, items, observe):
+        """tdma_schedule_set(off, items, p3); observe = its return value is in the observation stream (not when sched_gsmtime_execute calls it)"""
+        fr = 0
+        terminated = False
+        for it in items:
+            if it[0] == 1:
+                terminated = True
+                break
+            if it[0] == 0:
+                fr += 1
+        if not (0 <= off and off + fr < DEPTH) or not terminated or any(it[0] in (13, 14) for it in items):
+            return ("out-of-domain", tuple(sorted(feats)))
+        exp = 0
+        k = 0
+        for it in items:
+            if it[0] == 1:
+                break
+            if it[0] == 0:
+                k += 1
+                continue
+            if len(ref.due_now(off + k)) >= CAP:
+                exp = -1
+                break
+            ref.pend.append([(ref.now + off + k) % DEPTH, (it[0], u8(it[1]), u8(it[2]), u16(p3)), s16(it[4])])
+        want = -1 if exp < 0 else k
+        feats.add(("set-overflow" if exp < 0 else "set%d" % min(k, 3)) + ("" if observe else "-by-event"))
+        if observe:
+            rc = take(1)[0]
+            if rc != want:
+                fail("tdma_schedule_set return value", "c08-set-rc", want, rc)
+                return None
+        return True
+
     for o in ops:
         if pos >= len(impl):
             fail("observation stream ends early", "c08-short-output")
@@ -377,33 +517,64 @@ def oracle(ctx, case, impl):
             feats.add("off0" if off == 0 else "off24" if off == 24 else "off")
         elif o[0] == "S":
             _, off, p3, items = o
-            fr = 0
-            terminated = False
-            for it in items:
-                if it[0] == 1:
-                    terminated = True
-                    break
-                if it[0] == 0:
-                    fr += 1
-            if not (0 <= off and off + fr < DEPTH) or not terminated or any(it[0] in (13, 14) for it in items):
-                return ("out-of-domain", tuple(sorted(feats)))
-            exp = 0
-            k = 0
-            for it in items:
-                if it[0] == 1:
-                    break
-                if it[0] == 0:
-                    k += 1
-                    continue
-                if len(ref.due_now(off + k)) >= CAP:
-                    exp = -1
-                    break
-                ref.pend.append([(ref.now + off + k) % DEPTH, (it[0], u8(it[1]), u8(it[2]), u16(p3)), s16(it[4])])
+            r_ = apply_set(off, p3, items, True)
+            if r_ is not True:
+                return r_
+        elif o[0] == "g":
+            _, gfn, gp3, items = o
+            if not (0 <= gfn < GSM_MAX_FN):
+                return ("out-of-domain", tuple(sorted(feats)))       # the callers pass absolute frame numbers of the hyperframe
             rc = take(1)[0]
-            want = -1 if exp < 0 else k
-            feats.add("set-overflow" if exp < 0 else "set%d" % min(k, 3))
-            if rc != want:
-                fail("tdma_schedule_set return value", "c08-set-rc", want, rc)
+            if len(gpend) >= NEVENTS:
+                feats.add("g-ebusy")
+                if rc != -EBUSY:
+                    fail("sched_gsmtime with all %d event slots pending must answer -EBUSY" % NEVENTS, "c08-gsm-ebusy", -EBUSY, rc)
+                    return None
+            else:
+                if rc != 0:
+                    fail("sched_gsmtime with a free event slot failed", "c08-gsm-rc", 0, rc)
+                    return None
+                gser[0] += 1
+                if gpend:
+                    fs = [e[0] for e in gpend]
+                    feats.add("g-req-equal" if gfn in fs else "g-req-below" if gfn < min(fs) else "g-req-above" if gfn > max(fs) else "g-req-between")
+                gpend.append((gfn, gser[0], u16(gp3), items))
+                if len(gpend) == NEVENTS:
+                    feats.add("g-pool-full")
+        elif o[0] == "ge":
+            fn = o[1]
+            if not (0 <= fn < GSM_MAX_FN):
+                return ("out-of-domain", tuple(sorted(feats)))       # l1s.current_time.fn is a frame number of the hyperframe
+            # the property: an event requested for frame F is handed over in the frame two before F (frame numbers count modulo the hyperframe)
+            duel = sorted((e for e in gpend if e[0] == (fn + 2) % GSM_MAX_FN), key=lambda e: e[1])
+            lost = [e for e in duel if e[0] != fn + 2]
+            if lost:
+                # sched_gsmtime_execute compares with fn + 2 unreduced: frames 0 and 1 of the hyperframe are never reached
+                # (Coq: c08_gsm_frame01_refuted).  Reported as a violation only when the lead has registered the finding.
+                ctx.count("finding-candidate:c08-gsmtime-frame01-never-fires")
+                feats.add("g-wrap-lost")
+                if REPORT_WRAP_FINDING:
+                    fail("an event requested for frame %d of the next hyperframe is not handed over at frame %d (fn + 2 is not reduced modulo %d)"
+                         % (lost[0][0], fn, GSM_MAX_FN), "c08-gsmtime-frame01-never-fires", len(duel), None)
+                duel = [e for e in duel if e not in lost]
+            num = take(1)[0]
+            if num != len(duel):
+                fail("sched_gsmtime_execute(%d) handed over %d events, %d are requested for frame %d" % (fn, num, len(duel), fn + 2),
+                     "c08-gsm-exec-count", len(duel), num)
+                return None
+            if duel:
+                feats.add("g-fire%d" % min(len(duel), 3))
+            for e in duel:       # events for the same frame in request order; each is tdma_schedule_set(1, items, p3), result not visible
+                gpend.remove(e)
+                r_ = apply_set(1, e[2], e[3], False)
+                if r_ is not True:
+                    return r_
+        elif o[0] == "gr":
+            n = take(1)[0]
+            del gpend[:]
+            feats.add("g-reset")
+            if n != NEVENTS:
+                fail("sched_gsmtime_reset must free every event slot", "c08-gsm-reset", NEVENTS, n)
                 return None
         elif o[0] == "a":
             ref.now += 1
@@ -522,6 +693,29 @@ def oracle(ctx, case, impl):
         if sorted(its) != want:
             fail("bucket %d does not hold exactly the pending items of its frame" % b, "c08-final-state", want, its)
             return None
+    if pos < len(impl):
+        # the event pool: pending events in ascending frame order (equal frames: request order), every slot exactly once on one of the lists
+        t = take(2)
+        if t[0] != 8888 or t[1] != len(gpend):
+            fail("number of pending one-shot events", "c08-gsm-final-active", len(gpend), t)
+            return None
+        slots = []
+        got = []
+        for _ in range(t[1]):
+            slot, gfn, gp3, n = take(4)
+            its = [tuple(take(5)) for _ in range(max(n, 0))]
+            slots.append(slot)
+            got.append((gfn, gp3, its))
+        want = [(e[0], e[2], [(it[0], u8(it[1]), u8(it[2]), u16(it[3]), s16(it[4])) for it in e[3]])
+                for e in sorted(gpend, key=lambda e: (e[0], e[1]))]
+        if got != want:
+            fail("active_evts is not the pending events in ascending frame order (equal frames in request order)", "c08-gsm-final-active", want, got)
+            return None
+        n = take(1)[0]
+        slots += take(n)
+        if sorted(slots) != list(range(NEVENTS)):
+            fail("event pool not conserved: active + inactive is not each of the %d slots once" % NEVENTS, "c08-gsm-pool", list(range(NEVENTS)), slots)
+            return None
     return ("in-domain", tuple(sorted(feats)), cur % 5)
 
 
@@ -610,13 +804,49 @@ def run(ctx):
         if key is not None:
             ctx.count(key[0])
             ctx.nontrivial(key)
+    # one-shot GSM-time events on top: the real sched_gsmtime.c + tdma_sched.c against Model/SchedGsmtime.v
+    ng = 1500 if ctx.tier == "quick" else 40000
+    gcases = [gen_gsm_case(rng, k) for k in range(ng)] + gsm_grid_cases()
+    # the witness of c08_gsm_frame01_refuted on the real code in every run: frame 2715640, one-shot events for frames 0, 1 (never handed over), 2
+    for F in (0, 1, 2):
+        wops = [("g", F, 77, [(3, 3, 33, 0, 0), (0, 0, 0, 0, 0), (1, 0, 0, 0, 0)])]
+        for i in range(40):
+            wops += [("x",), ("ge", (2715640 + i) % GSM_MAX_FN), ("a",)]
+        gcases.append((7, wops))
+    gcases += [(c[0], c[1]) for c in cases[:200] if not (c[1] and c[1][0][0] in ("raw", "corpus"))]     # histories without events behave as before
+    glines = [" ".join(map(str, flat(c))) for c in gcases]
+    gouts = run_harness(ctx, binp, glines, mode=("gsm",))
+    gimpl = [[int(x) for x in o.split()] for o in gouts]
+    gidx = list(range(len(gcases)))
+    ctx.correspond("gsmtime-event-histories", "TdmaSched", gidx, lambda k: "w_c08_gsm " + glines[k], lambda k: gimpl[k],
+                   show=lambda k: dict(line=glines[k]))
+    for k, c in enumerate(gcases):
+        nops += len(c[1])
+        if gimpl[k] == [-996]:
+            continue
+        try:
+            key = oracle(ctx, c, gimpl[k])
+        except (IndexError, ValueError):
+            ctx.oracle_fail("observation stream of the implementation is shorter than the history", dict(line=glines[k]), key="c08-short-output")
+            key = None
+        if key is not None:
+            ctx.count("gsm:" + key[0])
+            ctx.nontrivial(("gsm",) + key)
+    ctx.sample(dict(line=glines[0][:300], impl=gimpl[0][:60]))
+    nwrap = ctx.hist.get("finding-candidate:c08-gsmtime-frame01-never-fires", 0)
+    if nwrap:
+        ctx.notes.append("sched_gsmtime_execute never hands over an event requested for frame 0 or 1 of the hyperframe (fn + SCHEDULE_AHEAD is not "
+                         "reduced modulo GSM_MAX_FN): observed %d times on the real code in this run, proved as c08_gsm_frame01_refuted; not reported "
+                         "as a violation until registered (REPORT_WRAP_FINDING)" % nwrap)
     ctx.count("operations", nops)
     for k in range(0, len(cases), max(1, len(cases) // 5)):
         ctx.sample(dict(line=lines[k][:300], impl=impl[k][:60]))
     ctx.extra["rule"] = ("histories of 4..130 operations in 16 modes (mixed, firmware frame loop, bucket filling, equal priorities, wild offsets/"
                          "callbacks/unterminated sets, full ring walk, sets; 7 modes with callbacks that call tdma_schedule / tdma_sched_reset from inside "
                          "tdma_sched_execute: same-frame, 1..24 ahead, into full and nearly full frames, chains, with failing callbacks and resets), "
-                         "every start position of the ring, offsets biased to 0/24, the 25x25 grid ring position x child offset, "
+                         "every start position of the ring, offsets biased to 0/24, the 25x25 grid ring position x child offset; "
+                         "GSM-time events: frame-interrupt histories in 12 modes (requests ascending / descending / equal / in-between pending ones, "
+                         "pool exhaustion, hyperframe wrap, uint32 edge, direct tdma_schedule calls, resets, skipped executes) + 75 grid cases, "
                          "priorities from {0}, {-1,0,1}, int16 edges or uniform; plus a malformed int stream, the 25x25 grid (ring position x offset, every frame "
                          "executed) and every priority pattern over 3 values for buckets of 1..6 items (thorough: 4 values, 1..8 items). distinct_nontrivial = distinct "
                          "(domain, feature set reached: overflow/full/wrap/ties/reordered/reset/set shapes, start position class) keys")
